@@ -85,6 +85,7 @@ func (fr *Frame) stmt(st *State, s ast.Stmt) flow {
 		return flow{next: st}
 	case *ast.AssignStmt:
 		fr.assignStmt(st, n)
+		fr.atAfter(st, n)
 		return flow{next: st}
 	case *ast.IncDecStmt:
 		v := fr.expr(st, n.X)
@@ -641,6 +642,7 @@ func (fr *Frame) selectStmt(st *State, n *ast.SelectStmt) flow {
 		case *ast.ExprStmt:
 			fr.expr(s, cm.X)
 		case *ast.AssignStmt:
+			fr.atHooks(s, cm)
 			fr.assignStmt(s, cm)
 			fr.atAfter(s, cm)
 		}
